@@ -308,6 +308,14 @@ def run(ctx):
         ctx.extra['acceptor_selftest'] = '3 corrupted observations (len, der, isValue), all rejected'
         seen_sig = set()
         bad = set()
+        for q in r.printed:
+            if isinstance(q, list) and len(q) == 4 and q[0] == 'DEV' and q[1] < 10 ** 8:
+                t = traces[q[1] - 1]
+                e = t['ev'][q[2] - 1]
+                ops = [(x['o'], x['i'], x['v']) for x in t['ev'][:q[2]]]
+                ctx.report('deviation %s: %s after %s' % (sorted(q[3]), t['kind'], ops),
+                           {'clause': 'ReadChangedObject', 'container': t['kind'], 'op': e['o'], 'devs': sorted(q[3])},
+                           {'prop': 'C19', 'container': t['kind'], 'ops': ops, 'clause': 'deviation', 'devs': sorted(q[3])})
         for _, tid, j, clause in rej:
             if tid >= 10 ** 8:
                 continue
